@@ -103,11 +103,13 @@ def main():
         qs.append(gen.render(seq, i % 3, sep=" "))
         if i % 5 == 0:
             qs.append(gen.render(seq, 1, sep=""))
+        if i % 4 == 1 and any(t in gen.TRICKY for t in seq):
+            qs.append(gen.render_tricky(seq, i))
     res = pmap(check, qs)
     failures = [f for r in res for f in r[1]]
     rest, hit = classify(failures, p.get("known", []))
     emit({"ok": not rest, "evaluations": sum(r[0] for r in res), "distinct_nontrivial": len(qs),
-          "rule": "queries = accepted token sequences of <= %d tokens (single blanks; every 5th also with minimal blanks) + the curated list "
+          "rule": "queries = accepted token sequences of <= %d tokens (single blanks; every 5th also with minimal blanks; every 4th with texts that probe token boundaries: escapes, reserved words in other case, quotes / operators inside phrases) + the curated list "
                   "(open ranges spelled with *, negative / quoted bounds, blanks after comparison operators, repeated operands) x %d "
                   "transformer configurations; meaning compared by truth table over atoms (term, field path, modifiers); distinct = queries"
                   % (p["max_tokens"], len(TRANSFORMERS)),
